@@ -26,6 +26,8 @@ def gen_scenario(rng: random.Random, focus: str = "any") -> dict:
     }
     if rng.random() < 0.3:
         sc["time_scale"] = rng.choice([0.5, 2.0, 4.0])
+    elif focus in ("C02", "any") and rng.random() < 0.15:
+        sc["pre_scale"] = rng.choice([0.5, 4.0])     # scale set by the application beforehand, LaunchConfig at its default
     if focus in ("C09", "C12") and rng.random() < 0.25:
         sc["swap_env"] = True
     if focus in ("C01", "C04") and rng.random() < 0.15:
